@@ -181,6 +181,8 @@ func Containers() map[string]interface{} {
 		"me":   map[string]int{},
 		"mnil": map[string]int(nil),
 		"many": map[string]interface{}{"n": nil, "i": 1, "s": "x", "l": []interface{}{1}, "m": map[string]interface{}{"z": 0}},
+		// keys that spell the joined form of a longer path: dots.a.b and dots["a.b"] are different selectors
+		"dots": map[string]interface{}{"a.b": 1, "a": map[string]interface{}{"b": 2, "c/d": 3, "c": map[string]interface{}{"d": 4}}, "a/b": 5, "a b": 6, "ab": 7},
 		"mim":  map[int]string{5: "five", -1: "neg"},
 		"mi8":  map[int8]string{5: "five", 44: "wrapped"},
 		"mu8":  map[uint8]string{44: "wrapped", 255: "max"},
@@ -259,7 +261,26 @@ func Wrapped() map[string]interface{} {
 		"pw": &Wrapper{Inner: []int{1, 2}},
 		"ws": Wrapper{Inner: "str"},
 		"m":  map[string]interface{}{"a": 1, "w": Wrapper{Inner: map[string]int{"k": 1}}},
+		// nil pointers and nil interfaces: values a hook may replace by a default
+		"nw":  (*Wrapper)(nil),
+		"ni":  nil,
+		"opt": Optional{S: "set"},
+		"pl":  []*int{nil, ip(3)},
+		// scalars of a named type, in lists and maps: values a hook may render differently
+		"lns": []NString{"x", "a", "x"},
+		"mns": map[string]NString{"a": "x", "b": "a"},
+		"ns":  NString("x"),
+		"lw":  []Wrapper{{Inner: 1}, {Inner: "x"}, {Inner: 2}},
+		"ln":  []int{1, 2},
 	}
+}
+
+// Optional has optional (nil) fields of pointer and interface type.
+type Optional struct {
+	W *Wrapper
+	I interface{}
+	P *string
+	S string
 }
 
 // Absent has a key "zz" missing under parents of every shape, and top-level keys holding the values used as
@@ -421,7 +442,19 @@ func Maps() map[string]interface{} {
 		"nk3": map[NString]interface{}{"a": ok(1), "b": er, "c": ok(2)},
 		"nat": map[string]interface{}{"007": er, "7": ok(2), "1": ok(1), "01": er, "10": ok(2), "9": ok(1)},
 		"m3e": map[string]interface{}{"a": ok(1), "b": er},
+		// maps and lists held by pointer: not iterable (the quantifier does not follow pointers), but whatever happens must not depend on map order
+		"pm3": &map[string]interface{}{"a": ok(1), "b": er, "c": ok(2)},
+		"pm4": func() interface{} { m := map[string]interface{}{"a": er, "b": ok(2), "c": ok(1), "d": er}; pm := &m; return &pm }(),
+		"pl":  &[]interface{}{ok(1), er, ok(2)},
+		"hp":  MapHolder{M: &map[string]interface{}{"a": ok(2), "b": er, "c": ok(1)}, V: map[string]interface{}{"a": er, "b": ok(2)}},
 	}
+}
+
+// MapHolder holds one map by pointer and one by value.
+type MapHolder struct {
+	M *map[string]interface{}
+	N *map[string]interface{}
+	V map[string]interface{}
 }
 
 // MapsB has maps under the same names as Maps, with other keys and other outcomes.
